@@ -37,6 +37,20 @@ def _dispatches(prog, m, fn):
     return out
 
 
+def plain_arm(m, d):
+    """Statements executed when the dispatch test is false: the else block, or - when the mux arm always
+    returns - the statements that follow the ``if`` in its block (``if mux: return A`` / ``return B``)."""
+    if d.orelse:
+        return d.orelse
+    if d.body and isinstance(d.body[-1], (ast.Return, ast.Raise)):
+        parent = m.parent.get(d)
+        for field in ("body", "orelse", "finalbody"):
+            blk = getattr(parent, field, None)
+            if isinstance(blk, list) and d in blk:
+                return blk[blk.index(d) + 1:]
+    return []
+
+
 def _dual_operators(ctx):
     prog = ctx.program
     out = []
@@ -59,7 +73,7 @@ def rule_ag1(ctx: Ctx) -> RuleResult:
 
     def in_plain_arm(m, fn, node):
         for d in _dispatches(prog, m, fn):
-            for s in d.orelse:
+            for s in plain_arm(m, d):
                 for x in ast.walk(s):
                     if x is node:
                         return True
@@ -161,7 +175,7 @@ def rule_ag2(ctx: Ctx) -> RuleResult:
                     continue
                 n += 1
                 r.instances += 1
-                a, b = _arm_call(d.body), _arm_call(d.orelse)
+                a, b = _arm_call(d.body), _arm_call(plain_arm(m, d))
                 if a is None or b is None:
                     # tee_map: the arms build the connectable (checked by TM-3); assert_1: arms return closures
                     ta = ast.unparse(d.body[0])[:60] if d.body else ""
@@ -257,8 +271,8 @@ def rule_ag3_small(ctx: Ctx):
         "AG-3", "flat_map mux/plain", mux.module.where(mux.fn),
         "flat_map must emit every element of the item once, in both modes; mux paths %s, plain paths %s" % (sorted(a, key=str), sorted(b, key=str))))
     # ---- assert_1 ------------------------------------------------------------
-    site_m = ctx.site("rxsci/operators/assert_.py", "assert_1._assert_1.on_subscribe_mux")
-    site_p = ctx.site("rxsci/operators/assert_.py", "assert_1._assert_1.on_subscribe")
+    site_m = ctx.site("rxsci/operators/assert_.py", "assert_1._assert_1.on_subscribe_mux", kind="mux")
+    site_p = ctx.site("rxsci/operators/assert_.py", "assert_1._assert_1.on_subscribe", kind="create")
     smux = site_m.handler_specs("on_next")[0]
     sobs = site_p.handler_specs("on_next")[0]
     r.instances += 1
